@@ -31,7 +31,7 @@ CLAIMS = {
          "IEEE doubles handled bit-precisely by CBMC; small attribute shapes only; osu and mania not covered"),
  "C14": ("proof", "Partial: passed_objects(n) limits to exactly n for every n incl. 0 and is unlimited when unset; catch's limited object counter obeys its per-call contract (Kani, all values) and by induction (Verus lemma, unbounded) counts min(n, total), monotonically and saturating; taiko's counting closure inside the real create_difficulty_objects gives max_combo == min(n, hits) (bounded, <= 3 objects); gradual values count exactly the first i objects (bounded, from C02's obligations). osu!'s counting closure and mania's n_objects call site are not under contract (attempts run out of memory).", "DESIGN.md §5 C14",
          "osu convert_objects does not finish in CBMC even for one object; mania n_objects vs. map rewrites (Invert) not checked"),
- "C15": ("proof", "Unbounded Verus proofs on the mechanically extracted real code of the osu!, catch and mania gradual difficulty calculators: next(), Iterator::nth() and len() obey the iterator protocol for EVERY object count, position and n (Some iff enough values remain, exactly min(n+1, remaining) values consumed, nth counts the same objects as n+1 next() calls, invariant preserved so an exhausted calculator stays exhausted, all indices in bounds, no overflow); taiko len() likewise. Bounded Kani stand-ins (object count fixed per harness, position and n symbolic) for the same clauses on the un-extracted code incl. taiko's healthy class and the gradual performance next/nth/last of all four modes; taiko short maps / non-hit-first maps are known findings F4/F3.", "DESIGN.md §5 C15",
+ "C15": ("proof", "Unbounded Verus proofs on the mechanically extracted real code of the osu!, catch and mania gradual difficulty calculators: next(), Iterator::nth() and len() - and, modularly on top of nth's contract, the gradual performance calculators' nth/next/last/len - obey the protocol for EVERY object count, position and n (Some iff enough values remain, exactly min(n+1, remaining) values consumed, nth counts the same objects as n+1 next() calls, invariant preserved so an exhausted calculator stays exhausted, all indices in bounds, no overflow); taiko len() likewise. Bounded Kani stand-ins (object count fixed per harness, position and n symbolic) for the same clauses on the un-extracted code incl. taiko's healthy class and the gradual performance next/nth/last of all four modes; taiko short maps / non-hit-first maps are known findings F4/F3.", "DESIGN.md §5 C15",
          "callees of next/nth (skill process, eval, combo/count increments, clone) are external_body contracts in Verus resp. stubs in Kani; rewrites R10/R11 model std's skip/take/zip/filter; the inductive base case (new establishes the invariant) is not proved; taiko next/nth bounded only"),
  "C16": ("other", "Partial, bounded: the open section's peak is always appended before export or aggregation (so all skills report the same number of sections), strains and difficulty are computed on the same conversion (call-site contract), StrainsVec iter/sum/retain/transmute equal the plain list for <= 3 pushes. The decay-weighted aggregation itself (std sort) and finiteness of peaks are not covered.", "DESIGN.md §5 C16",
          "difficulty_value (sort) did not finish and is not claimed; peaks' finiteness is float pipeline"),
